@@ -1,5 +1,6 @@
 (* C19 — only one process at a time can open a repository's cache. Property theorems only.
-   Model: Lock.v (lock file = absent | pid | torn, live/dead processes, holders; open = Test ; Create ; Write).
+   Model: Lock.v (lock file = absent | pid | torn, live/dead processes, holders; open = Test ; Create ; Write,
+   Write being the rename of a temporary file that holds the pid).
    Standing assumption, explicit as [aok]/[mem p (dead s) = false]: the pid of a dead process is not reused. *)
 From Coq Require Import List Arith Bool Lia.
 Import ListNotations.
@@ -24,6 +25,18 @@ Theorem C19_stale s p q : inv s -> lockf s = Some (LPid q) -> mem q (dead s) = t
   snd (open_atomic s p) = Granted /\ lockf (fst (open_atomic s p)) = Some (LPid p) /\ In p (holders (fst (open_atomic s p))).
 Proof. exact (stale_open s p q). Qed.
 Print Assumptions C19_stale.
+
+(* an empty lock file, as an older version could leave it, does not block anybody *)
+Theorem C19_stale_torn s p : inv s -> lockf s = Some LTorn ->
+  snd (open_atomic s p) = Granted /\ lockf (fst (open_atomic s p)) = Some (LPid p) /\ In p (holders (fst (open_atomic s p))).
+Proof. exact (torn_open s p). Qed.
+Print Assumptions C19_stale_torn.
+
+(* whatever the interleaving of the sub-steps of any number of opens, closes, kills and failing commands,
+   the lock file never exists without a pid in it *)
+Theorem C19_no_torn_lock es : forallb fixed_ev es = true -> lockf (run es) <> Some LTorn.
+Proof. exact (no_torn es). Qed.
+Print Assumptions C19_no_torn_lock.
 
 (* the holder closed cleanly (or ended through an error path / the signal cleaner): the next open succeeds *)
 Theorem C19_free_after_close s p q : inv s -> In q (holders s) ->
@@ -65,17 +78,18 @@ Proof. exact (inv_areach s). Qed.
 Print Assumptions C19_invariant.
 
 (* ---- what the code as written does not guarantee ---- *)
-(* the open is test ; create ; write: two processes can both pass the test and both hold *)
-Theorem C19_toctou_refuted : exists es, holders (run es) = [2; 1] /\ dead (run es) = [].
+(* the open is test ; create ; write: two processes can both pass the test and both hold (true of the repaired steps too) *)
+Theorem C19_toctou_refuted : exists es, forallb fixed_ev es = true /\ holders (run es) = [2; 1] /\ dead (run es) = [].
 Proof. exact toctou_refuted. Qed.
 Print Assumptions C19_toctou_refuted.
 (* ... after which a clean close by one of them removes the lock while the other, alive, still holds *)
 Theorem C19_removes_live_lock_refuted : exists es, holders (run es) = [2] /\ lockf (run es) = None /\ dead (run es) = [].
 Proof. exact removes_live_lock_refuted. Qed.
 Print Assumptions C19_removes_live_lock_refuted.
-(* a process that dies between creating the lock file and writing its pid leaves a lock that refuses everybody, for ever *)
-Theorem C19_torn_lock_refuted : exists es, dead (run es) = [1] /\ holders (run es) = [] /\
-  forall p, open_atomic (run es) p = (run es, Corrupt).
+(* the pinned tree (lock file created in place, pid written in a second step, empty file = error): a process that dies
+   in between leaves a lock that refuses everybody, for ever *)
+Theorem C19_torn_lock_refuted : exists es, dead (run es) = [1] /\ holders (run es) = [] /\ lockf (run es) = Some LTorn /\
+  forall p, step (run es) (TestPinned p) = (run es, Corrupt).
 Proof. exact torn_lock_refuted. Qed.
 Print Assumptions C19_torn_lock_refuted.
 (* the pinned wrapper: no identity / cache build error / webui cannot listen — the lock of the finished command stays *)
